@@ -34,4 +34,16 @@
                  'pipeline-level F6 guard (jscalls_wf, jscalls_stable) remain',
                  'extracted source fact Gen/DeclHash.v (decl_hash_injective): computeDeclHash keys its table '
                  'by the full declaration encoding AND stores a fresh-unique id (uuid.New or a counter) for '
-                 'a new key - not a digest of the encoding; a change to either breaks the *_src obligations']}
+                 'a new key - not a digest of the encoding; a change to either breaks the *_src obligations',
+                 'F29 guard wherever JavaScript enters (the *_js theorems): scripts create no global '
+                 'bindings - no top-level let/const/class/var/function, no implicit globals, no mutation of '
+                 'built-ins (known finding F29, witnesses under replays/corpus/C13/f29_*.json)',
+                 'PROVED + EXTRACTED: children_order_deterministic - the children (evaluation) order of an '
+                 'object declaration is a function of the child set for every total comparison on pairwise '
+                 'distinct keys; the sort key of validateObject is re-extracted on every run '
+                 '(Gen/ChildrenOrder.v: `<` on the full fqdn); children_order_refuted for a non-injective '
+                 'key (C15-r42 class); compared on real runs: C15Order cases (validated children lists '
+                 'strictly increasing) and the repeated-load comparison of the validated tree',
+                 'NOT proved: uniqueness of fqdns among the children of one object (JSON object keys unique '
+                 '+ escaping of names) is assumed as NoDup (map key l); checksum canon injectivity for '
+                 'JSON/XML/flat is proved, MD5/json.Marshal injectivity assumed']}
